@@ -2,5 +2,5 @@
 From Coq Require Import Extraction ExtrOcamlBasic.
 From T38 Require Import Base.Bytes Model.Glob Model.GlobSel.
 Extraction Language OCaml.
-Extraction "model.ml" Z.add Z.of_N Nat.add multi_glob_parse scan_multi search_multi hook_walk pdel_hooks
+Extraction "model.ml" Z.add Z.of_N Nat.add multi_glob_parse scan_multi search_multi out_items out_count hook_walk pdel_hooks
   shortcut_count glob_test Z.to_N.
